@@ -16,6 +16,7 @@ class ModuleCheck:
     def __init__(self, module, spec, trace_spec, trace_cfg, clauses, mc, gen, rnd,
                  scenarios=(), required=(), level_note="", assumptions=(), gen_cfg="", epilogue=True):
         self.module, self.spec = module, spec
+        self.binary = module   # harness/cmd/<binary>
         self.trace_spec, self.trace_cfg = trace_spec, trace_cfg
         self.clauses = set(clauses)
         self.mc, self.gen, self.rnd = mc, gen, rnd
@@ -285,33 +286,21 @@ def match_known(known, pid, clause, rec):
 
 
 # ---------------------------------------------------------------------------
-FARM_CLAUSES_C05 = ["C05_StakeSum", "C05_Escrow", "C05_UnstakeNeverFails", "C05_UnstakeExact",
-                    "C05_StakeExact", "C05_OthersUntouched", "C05_ScaleExact", "C05_CrisisInvariant",
-                    "Rejected_NoEffect"]
-FARM_CLAUSES_C06 = ["C06_Budget", "C06_ProRata", "C06_Flows", "C06_Rate", "C06_RefundOnce"]
+# Property definitions live in bin/propdefs/<module>.py; each defines
+#   PROPS = {"Cnn": ModuleCheck(...)}   and   TEXT = {"Cnn": {design, text, note}}
+PROPS = {}
+TEXT = {}
 
-FARM_RND = T(
-    [dict(n=12, len=25, procs=6, cfg="users=3,rdenoms=2,initlp=6,initr=60"),
-     dict(n=12, len=30, procs=6, cfg="users=2,rdenoms=1,initlp=4,initr=40,prec=100")],
-    [dict(n=60, len=30, procs=7, cfg="users=3,rdenoms=2,initlp=6,initr=60"),
-     dict(n=60, len=40, procs=7, cfg="users=2,rdenoms=1,initlp=4,initr=40,prec=100")])
-FARM_GEN = T([dict(cfg="GEN_Farm.cfg", num=20, depth=15, seeds=12)],
-             [dict(cfg="GEN_Farm.cfg", num=60, depth=17, seeds=14)])
-FARM_SCN = [dict(file="scenarios/farm_F2.ndjson", cfg="users=2,rdenoms=1,initlp=3,initr=20,prec=10"),
-            dict(file="scenarios/farm_F3.ndjson", cfg="users=3,rdenoms=2,initlp=6,initr=60,prec=10")]
-FARM_MC = T([dict(cfg="MC_Farm.cfg", timeout=1500)], [dict(cfg="MC_Farm_big.cfg", timeout=3400)])
 
-PROPS = {
-    "C05": ModuleCheck("farm", "Farm.tla", "FarmTrace.tla", "FarmTrace.cfg", FARM_CLAUSES_C05,
-                       FARM_MC, FARM_GEN, FARM_RND, scenarios=FARM_SCN,
-                       required=["unstake_ok", "stake_ok", "refund", "release", "payout"],
-                       gen_cfg="users=2,rdenoms=1,initlp=3,initr=20,prec=10",
-                       assumptions=["TLC 1.8, SANY, CommunityModules Json", "Go toolchain, cosmos-sdk x/bank",
-                                    "harness projection functions", "unit scaling of LP amounts (DESIGN 4.2)"]),
-    "C06": ModuleCheck("farm", "Farm.tla", "FarmTrace.tla", "FarmTrace.cfg", FARM_CLAUSES_C06,
-                       FARM_MC, FARM_GEN, FARM_RND, scenarios=FARM_SCN,
-                       required=["refund", "release", "payout", "adjust_ok", "destroy_ok"],
-                       gen_cfg="users=2,rdenoms=1,initlp=3,initr=20,prec=10",
-                       assumptions=["TLC 1.8, SANY, CommunityModules Json", "Go toolchain, cosmos-sdk x/bank",
-                                    "harness projection functions", "unit scaling of LP amounts (DESIGN 4.2)"]),
-}
+def _load():
+    import importlib.util
+    d = os.path.join(os.path.dirname(os.path.abspath(__file__)), "propdefs")
+    for f in sorted(glob.glob(os.path.join(d, "*.py"))):
+        spec = importlib.util.spec_from_file_location("propdefs_" + os.path.basename(f)[:-3], f)
+        m = importlib.util.module_from_spec(spec)
+        spec.loader.exec_module(m)
+        PROPS.update(getattr(m, "PROPS", {}))
+        TEXT.update(getattr(m, "TEXT", {}))
+
+
+_load()
